@@ -873,13 +873,14 @@ class RpmVersionRange(VersionRange):
     version_class = versions.RpmVersion
 
     vers_by_native_comparators = {
+        # note: ORDER MATTER here: we tests startswith(key) for each key in sequence
         "=": "=",
         "<=": "<=",
         ">=": ">=",
-        "<": "<",
-        ">": ">",
         # seen in RPM code but never seen in the doc or in the wild so far
         "<>": "!=",
+        "<": "<",
+        ">": ">",
         # seen in a specfile parser code
         "!=": "!=",
         "==": "=",
